@@ -58,6 +58,9 @@ def gen_config(H):
         "hc_n": 1 + H.draw(4),
         "minimize": bool(H.draw(2)),
         "time_budget": bool(H.draw(4) == 3),
+        "default_random": bool(H.draw(4) == 3),  # the search is built without `random=` (documented default)
+        "fitness_levels": H.pick([1000, 1000, 7, 3]),  # coarse fitness: ties at the elite cut
+        "elitist_step": bool(H.draw(2)),  # GP step that really reserves elite slots (the default 5% rounds to 0 for small populations)
     }
 
 
@@ -86,7 +89,7 @@ def run_search(spec, cfg, built=None, grammar=None, clock=None):
         c = canon(p, ref)
         h = int.from_bytes(hashlib.sha256(repr(c).encode()).digest()[:4], "big")
         trace.append(show(c, 160))
-        return float(h % 1000)
+        return float(h % cfg.get("fitness_levels", 1000))
 
     r = NativeRandomSource(cfg["seed"])
     lm = g.get_min_tree_depth()
@@ -121,12 +124,25 @@ def run_search(spec, cfg, built=None, grammar=None, clock=None):
     kw = {}
     if cfg["algo"] == "gp":
         kw["population_size"] = cfg["pop"]
+        if cfg.get("elitist_step"):
+            from geneticengine.algorithms.gp.operators.combinators import ParallelStep, SequenceStep
+            from geneticengine.algorithms.gp.operators.crossover import GenericCrossoverStep
+            from geneticengine.algorithms.gp.operators.elitism import ElitismStep
+            from geneticengine.algorithms.gp.operators.mutation import GenericMutationStep
+            from geneticengine.algorithms.gp.operators.novelty import NoveltyStep
+            from geneticengine.algorithms.gp.operators.selection import TournamentSelection
+
+            kw["step"] = ParallelStep([ElitismStep(), NoveltyStep(),
+                                       SequenceStep(TournamentSelection(3), GenericCrossoverStep(0.5), GenericMutationStep(0.5))], weights=[3, 1, 6])
     if cfg["algo"] == "hc":
         kw["number_of_mutations"] = cfg["hc_n"]
     outcome = "ok"
     best = None
     try:
-        a = cls(problem=problem, budget=bud, representation=rep, random=r, **kw)
+        if cfg.get("default_random"):
+            a = cls(problem=problem, budget=bud, representation=rep, **kw)
+        else:
+            a = cls(problem=problem, budget=bud, representation=rep, random=r, **kw)
         best = a.search()
     except SimStepCap:
         outcome = "step-cap"
@@ -209,7 +225,7 @@ def run(ctx):
                         f"the same seed under two iteration orders of the grammar's symbol sets ({s1}, {s2}) diverges at trace entry {i}: {x!r} vs {y!r}")
             return
         # (d) fresh interpreters
-        if ctx.run_index % 25 == 3:
+        if ctx.run_index % 25 == 3 or (cfg["algo"] == "gp" and cfg["rep"] != "tree" and ctx.run_index % 5 == 1):
             envs = fresh_traces(spec, cfg, 3 if ctx.tier == "quick" else 6)
             ctx.stat("fresh_interpreter_runs", len(envs))
             good = [(e, t) for e, t in envs if t is not None]
